@@ -1,3 +1,1 @@
-# Properties not (yet) claimed, each with the reason (exec'd by mkmanifest.py)
-for _p in ['C01','C02','C06','C07','C11','C12','C13','C14','C16','C17','C18','C19']:
-    NOT_APPLICABLE.append({'property_id': _p, 'reason': 'check under construction in this round: the specification covers it in DESIGN.md but the trace validator is not yet registered'})
+# Properties not claimed, each with the reason (exec'd by mkmanifest.py): none at present
